@@ -139,7 +139,11 @@ CrClass(ms) == IF \E i \in 1..Len(ms) : HasLoneCR(Atoms(ms[i])) THEN "lone-cr"
 CONSTANTS MaxScript,      \* scripts of up to this many steps
           MaxSpurious,    \* wake-ups of the task nobody asked for
           FORWARD_WAKER,  \* poll_next polls the producer with the task's own context (TRUE in the code)
-          READY_DRAINS    \* after the producer completed, the queue is still drained (TRUE in the code)
+          READY_DRAINS,   \* after the producer completed, the queue is still drained (TRUE in the code)
+          FILTER_MODE     \* "none": the handler's stream goes to the response as it is;  "filter": through the adapter StreamExt::filter,
+                          \* the producer also pushes items the predicate rejects (0 in the queue), and a rejected item makes the adapter
+                          \* poll its inner stream again at once (the code);  "filter-pending": the adapter returns Pending instead,
+                          \* without arranging a wake-up (a deviation: the stream may never end)
 
 VARIABLES
   script,     \* the producer's program
@@ -171,7 +175,9 @@ CanPCont    == pcC = "pollprod" /\ prod = "running" /\ (~waiting \/ fired)
 CanPPush    == pcC = "prodrun" /\ ip <= Len(script) /\ script[ip] = "P"
 CanPYield   == pcC = "prodrun" /\ ip <= Len(script) /\ script[ip] = "Y"
 CanPEnd     == pcC = "prodrun" /\ ip > Len(script)
-CanCDeliver == queue # <<>> /\ (pcC = "popP" \/ (pcC = "popR" /\ READY_DRAINS))
+CanPDecoy   == pcC = "prodrun" /\ FILTER_MODE # "none" /\ (IF queue = <<>> THEN TRUE ELSE queue[Len(queue)] # 0)   \* (never two rejected items in a row)
+CanCDeliver == (IF queue = <<>> THEN FALSE ELSE Head(queue) # 0) /\ (pcC = "popP" \/ (pcC = "popR" /\ READY_DRAINS))
+CanCDiscard == (IF queue = <<>> THEN FALSE ELSE Head(queue) = 0) /\ (pcC = "popP" \/ (pcC = "popR" /\ READY_DRAINS))
 CanCSuspend == pcC = "popP" /\ queue = <<>>
 CanCFinish  == pcC = "popR" /\ (queue = <<>> \/ ~READY_DRAINS)
 CanCResume  == pcC = "idle" /\ woken
@@ -193,6 +199,9 @@ PCont == /\ CanPCont                           \* the producer is polled and run
 PPush == /\ CanPPush                           \* handle.send(m): queue.push_back, nobody is woken
          /\ queue' = Append(queue, Len(pushed) + 1) /\ pushed' = Append(pushed, Len(pushed) + 1) /\ ip' = ip + 1
          /\ UNCHANGED <<script, delivered, prod, waiting, fired, pcC, woken, spurious, finished>>
+PDecoy == /\ CanPDecoy                           \* the producer pushes an item the filter's predicate will reject
+          /\ queue' = Append(queue, 0)
+          /\ UNCHANGED <<script, ip, pushed, delivered, prod, waiting, fired, pcC, woken, spurious, finished>>
 PYield == /\ CanPYield                         \* .await of something not ready: waker stored, Pending
           /\ ip' = ip + 1 /\ waiting' = TRUE /\ fired' = FALSE /\ pcC' = "popP"
           /\ UNCHANGED <<script, queue, pushed, delivered, prod, woken, spurious, finished>>
@@ -205,6 +214,10 @@ CDeliver == /\ CanCDeliver                     \* Some(value): chunk framed, wri
             /\ delivered' = Append(delivered, Head(queue)) /\ queue' = Tail(queue)
             /\ pcC' = IF prod = "done" THEN "popR" ELSE "pollprod"
             /\ UNCHANGED <<script, ip, pushed, prod, waiting, fired, woken, spurious, finished>>
+CDiscard == /\ CanCDiscard                    \* Filter::poll_next: the predicate rejects the item; the inner stream is polled again
+            /\ queue' = Tail(queue)
+            /\ pcC' = IF FILTER_MODE = "filter-pending" THEN "idle" ELSE IF prod = "done" THEN "popR" ELSE "pollprod"
+            /\ UNCHANGED <<script, ip, pushed, delivered, prod, waiting, fired, woken, spurious, finished>>
 CSuspend == /\ CanCSuspend                     \* Pending and nothing queued: the task is suspended
             /\ pcC' = "idle"
             /\ UNCHANGED <<script, ip, queue, pushed, delivered, prod, waiting, fired, woken, spurious, finished>>
@@ -223,13 +236,13 @@ Spurious == /\ CanSpurious
             /\ woken' = TRUE /\ spurious' = spurious + 1
             /\ UNCHANGED <<script, ip, queue, pushed, delivered, prod, waiting, fired, pcC, finished>>
 
-PStep == PStill \/ PCont \/ PPush \/ PYield \/ PEnd
-CStep == CHead \/ CDeliver \/ CSuspend \/ CFinish \/ CResume
+PStep == PStill \/ PCont \/ PPush \/ PDecoy \/ PYield \/ PEnd
+CStep == CHead \/ CDeliver \/ CDiscard \/ CSuspend \/ CFinish \/ CResume
 Next == PStep \/ CStep \/ Fire \/ Spurious
 
 \* fair waking: the awaited events happen, the runtime polls a woken task, code runs on
 Fairness == /\ WF_vars(PStill) /\ WF_vars(PCont) /\ WF_vars(PPush) /\ WF_vars(PYield) /\ WF_vars(PEnd)
-            /\ WF_vars(CHead) /\ WF_vars(CDeliver) /\ WF_vars(CSuspend) /\ WF_vars(CFinish) /\ WF_vars(CResume)
+            /\ WF_vars(CHead) /\ WF_vars(CDeliver) /\ WF_vars(CDiscard) /\ WF_vars(CSuspend) /\ WF_vars(CFinish) /\ WF_vars(CResume)
             /\ WF_vars(Fire)
 Spec == Init /\ [][Next]_vars /\ Fairness
 
@@ -243,7 +256,7 @@ TypeOK == /\ ip \in 1..(Len(script) + 1) /\ prod \in {"running", "done"} /\ wait
 \* nothing duplicated, reordered or invented, at every step
 PrefixInv == IsPrefixOf(delivered, pushed) /\ pushed = [i \in 1..Len(pushed) |-> i]
 \* what is queued is exactly what is pushed and not yet delivered
-QueueInv == delivered \o queue = pushed
+QueueInv == delivered \o SelectSeq(queue, LAMBDA x : x # 0) = pushed
 \* at termination nothing is lost (also when the producer ended with a non-empty queue) and the script ran to its end
 DoneInv == finished => (delivered = pushed /\ queue = <<>> /\ ip > Len(script) /\ prod = "done")
 NPush(sc) == Len(SelectSeq(sc, LAMBDA s : s = "P"))
